@@ -41,6 +41,10 @@ THEOREMS = [
     "CrCube.C05.slice_inserted_idxs_def",
     "CrCube.C05.slice_inserted_reads_insertion",
     "CrCube.C05.slice_label_idxs_def",
+    "CrCube.C05.slice_position_outputs_renumbered",
+    "CrCube.C05.slice_diff_idxs_def",
+    "CrCube.C05.slice_pipeline_factors",
+    "CrCube.C05.strand_pipeline_factors",
     "CrCube.C05.slice_row_pruned_iff",
     "CrCube.C05.slice_col_pruned_iff",
     "CrCube.C05.slice_row_subtotal_pruned_iff",
@@ -56,22 +60,28 @@ THEOREMS = [
     "CrCube.C05.resolve_wf",
     "CrCube.C05.sliceWF_of_resolve",
 ]
-RULE = ("pipeline: 1-D / 2-D / 3-D designs over cat / cat_date / text / binned / mr (derived items, missing items, "
-        "missing categories anywhere) and single CA variables x random surveys (weighted or not, zero-weight rows) x "
-        "c05.gen_dim transforms on both dimensions (insertions incl. differences / junk / id-less / colliding ids / "
-        "stale anchors, view-level insertions, hide flags, prune, explicit / payload / label / marginal / "
-        "opposing-element / opposing-insertion / univariate orders with direction and fixed lists with repeats and "
-        "stale ids) restricted to the sort keys the pipeline computes (counts, the six bases, three proportions; "
-        "unweighted_base / weighted_base marginals; unknown keywords kept for the fallback path); every listed public "
-        "output of the real partition vs the Lean pipeline op; non-trivial = display order differs from the stripped "
-        "order; distinct = (kinds, transforms, orders)")
+RULE = ("pipeline: 1-D / 2-D / 3-D designs over cat / cat_date / text / binned / datetime / mr (derived items, missing "
+        "items, missing categories anywhere) and single CA variables x random surveys (weighted or not, zero-weight "
+        "rows, 0..45 respondents) x c05.gen_dim transforms on both dimensions (insertions incl. differences / junk / "
+        "id-less / colliding ids / stale anchors / fills, view-level insertions and empty transform lists overriding "
+        "them, hide flags, prune, explicit / payload / label / marginal / opposing-element / opposing-insertion / "
+        "univariate orders with direction and fixed lists with repeats and stale ids) restricted to the sort keys the "
+        "pipeline computes (counts, the six bases, three proportions; unweighted_base / weighted_base marginals; "
+        "unknown keywords kept for the fallback path), plus three focused families (sort-by-value with >= 2 "
+        "insertions per dimension, MR / categorical strands sorted by a measure, pruning over MR pairings with 0-6 "
+        "respondents); EVERY listed public output of the real partition vs the Lean pipeline op, cell for cell; base "
+        "cells and visibility also vs respondent-level counts at the positions the library's own orders name; "
+        "non-trivial = display order differs from the stripped order; distinct = (kinds, transforms, orders)")
 ASSUMPTIONS = [
-    "adapter: element keys are spelled as the library addresses them (category ids, subvariable aliases); ids in "
-    "fixed / explicit lists that no element carries are passed as spelled (they match nothing on either side)",
-    "excluded from the pipeline grammar: datetime dimensions; sort keys z_score, p_value, col_index, std-err / "
-    "std-dev / MoE, population, share-of-sum, mean / sum / stddev, scale marginals, table_proportion marginal; "
-    "opposing-insertion sort on an ARRAY opposing dimension only with ids it cannot translate (fallback path); "
-    "opposing-element references to an MR dimension are aliases or an unmatched id (translation cascade = C19)",
+    "adapter: element keys are spelled as the library addresses them (category ids, subvariable aliases, datetime "
+    "values); ids in fixed / explicit lists that no element carries are passed as spelled (they match nothing on "
+    "either side); element labels are computed by the adapter and compared with the library's whenever a label sort "
+    "reads them",
+    "excluded from the pipeline grammar: sort keys z_score, p_value, col_index, std-err / std-dev / MoE, population, "
+    "share-of-sum, mean / sum / stddev, scale marginals, table_proportion marginal (their measures are not part of "
+    "the pipeline model); opposing-insertion sort on an ARRAY opposing dimension only with ids its translation "
+    "cascade rejects (fallback path); opposing-element references to an MR dimension are aliases or an unmatched id "
+    "(the translation cascade is C19's subject); CubeSets, numeric measures, smoothing, pairwise index sets (C05 main)",
 ]
 
 MEASURE_OK = ["col_base_unweighted", "col_base_weighted", "col_percent", "row_base_unweighted", "row_base_weighted",
@@ -202,7 +212,8 @@ def gen_sort_case(rng):
     if ci:
         cd["insertions"] = _with_fills(rng, ci)
     rkeys, ckeys = sc.element_keys(R), sc.element_keys(C)
-    rt = rng.choice(["opposing_element", "opposing_element", "opposing_insertion", "opposing_insertion", "marginal", "label"])
+    rt = rng.choice(["opposing_element", "opposing_element", "opposing_element", "opposing_insertion",
+                     "opposing_insertion", "opposing_insertion", "marginal", "label"])
     if rt == "opposing_element":
         ro = {"type": rt, "element_id": rng.choice(ckeys), "measure": rng.choice(MEASURE_OK)}
     elif rt == "opposing_insertion":
@@ -242,6 +253,9 @@ def gen_strand_sort_case(rng):
     v = gen.gen_var(rng, kind, "v0", n=rng.randint(3, 5), missing_items=True, derived_items=True)
     weighted = rng.random() < 0.8
     survey = gen.gen_survey(rng, [v], n_resp=rng.randint(10, 40), weighted=weighted, skew=rng.random() < 0.3)
+    if weighted and rng.random() < 0.5:
+        tgt = rng.randrange(len(v.cats))      # weighted-empty, unweighted non-empty (first item, for MR)
+        survey = [(Fraction(0) if ans[0][0] == tgt else w, ans) for w, ans in survey]
     case = {"vars": [v.to_json()], "survey": gen.survey_to_json(survey), "weighted": weighted, "min_base": 0}
     d = {}
     ins = _at_least_two_insertions(rng, v)
@@ -256,7 +270,7 @@ def gen_strand_sort_case(rng):
     el = {str(k): {"hide": True} for k in keys if rng.random() < 0.12}
     if el:
         d["elements"] = el
-    if rng.random() < 0.3:
+    if rng.random() < 0.5:
         d["prune"] = True
     case["transforms"] = {"rows_dimension": d}
     return case
@@ -266,11 +280,17 @@ def gen_prune_case(rng):
     """pruning focus: few respondents over MR / categorical pairings, prune on both dimensions, so that 'answered but
     never selected', 'selected once', 'weight 0 only' and 'nobody' vectors all occur; insertions present so that the
     subtotals-dropped-when-the-opposing-dimension-is-empty rule fires"""
-    kinds = rng.choice([["cat", "mr"], ["mr", "cat"], ["mr", "mr"], ["cat", "cat"], ["mr"], ["cat", "cat", "mr"]])
+    kinds = rng.choice([["cat", "mr"], ["mr", "cat"], ["mr", "mr"], ["cat", "cat"], ["mr"], ["cat"], ["cat_date"],
+                        ["cat", "cat", "mr"]])
     vars_ = [gen.gen_var(rng, k, "v%d" % i, n=rng.randint(1, 4), missing_items=True, derived_items=True)
              for i, k in enumerate(kinds)]
-    weighted = rng.random() < 0.6
-    survey = gen.gen_survey(rng, vars_, n_resp=rng.choice([0, 1, 2, 2, 3, 4, 6]), weighted=weighted)
+    weighted = rng.random() < 0.7
+    survey = gen.gen_survey(rng, vars_, n_resp=rng.choice([0, 1, 2, 2, 3, 4, 6, 9]), weighted=weighted)
+    if weighted and survey and rng.random() < 0.6:
+        # every respondent of one element of a pruned dimension has weight 0: weighted-empty, unweighted non-empty
+        vi = rng.randrange(max(0, len(vars_) - 2), len(vars_))
+        tgt = rng.randrange(len(vars_[vi].cats))
+        survey = [(Fraction(0) if ans[vi][0] == tgt else w, ans) for w, ans in survey]
     case = {"vars": [v.to_json() for v in vars_], "survey": gen.survey_to_json(survey), "weighted": weighted, "min_base": 0}
     tr = {}
     dimvars = vars_[-2:] if len(vars_) >= 2 else vars_
@@ -289,17 +309,17 @@ def gen_prune_case(rng):
 
 def gen_case(rng):
     r = rng.random()
-    if r < 0.22:
-        return gen_sort_case(rng)
     if r < 0.30:
+        return gen_sort_case(rng)
+    if r < 0.38:
         return gen_strand_sort_case(rng)
-    if r < 0.40:
-        return gen_prune_case(rng)
     if r < 0.50:
+        return gen_prune_case(rng)
+    if r < 0.58:
         kinds = ["ca"]
     else:
         nd = rng.choice([1, 2, 2, 2, 2, 2, 3])
-        pool = ["cat", "cat", "cat", "mr", "mr", "cat_date", "text", "binned"]
+        pool = ["cat", "cat", "cat", "mr", "mr", "cat_date", "text", "binned", "datetime", "datetime", "datetime"]
         kinds = [rng.choice(pool) for _ in range(nd)]
     case = sc.gen_case(rng, kinds=kinds, max_n=4, derived_items=True, n_resp=rng.choice([None, None, None, 0, 3]))
     vars_, survey = sc.load(case)
@@ -388,11 +408,14 @@ def _el_transform(d, key):
 def _labels(v, role, d):
     out = []
     if role == "cat":
-        src = [(c["id"], c["name"] if v.kind != "binned" else None, i) for i, c in enumerate(v.cats) if not c["missing"]]
-        for cid, name, i in src:
-            if name is None:
-                name = "%d-%d" % (i * 10, i * 10 + 10)
-            out.append((cid, name))
+        for key, (i, c) in zip(_keys(v, role), [(i, c) for i, c in enumerate(v.cats) if not c["missing"]]):
+            if v.kind == "binned":
+                name = "%d-%d" % (i * 10, i * 10 + 10)       # "-".join of the formatted bounds
+            elif v.kind == "datetime":
+                name = key                                   # the element value as the payload spells it
+            else:
+                name = c["name"]
+            out.append((key, name))
     else:
         for it in v.items:
             if not it.get("missing"):
@@ -588,6 +611,13 @@ def evaluate(case, louts, ctx):
         det = "k=%d row_order=%r column_order=%r" % (k, ro, co)
         ok_r = _cmp(findings, "model", "pipeline.slice.row_order", ro, t["row_order"], det)
         ok_c = _cmp(findings, "model", "pipeline.slice.column_order", co, t["column_order"], det)
+        # property level (slice_order_nodup / slice_order_subset): never twice, only vectors of the stripped order
+        for nm, o, o0 in (("row", ro, lo["strip"]["row_order"]), ("column", co, lo["strip"]["column_order"])):
+            if len(set(o)) != len(o):
+                findings.append({"kind": "spec", "locus": "pipeline.slice.%s_order.duplicate" % nm, "detail": "%s" % det})
+            if not set(o) <= set(o0):
+                findings.append({"kind": "spec", "locus": "pipeline.slice.%s_order.not-in-stripped-order" % nm,
+                                 "detail": "%s stripped order %r" % (det, o0)})
         _cmp(findings, "model", "pipeline.slice.shape", common.call_impl(lambda: sl.shape), t["shape"], det)
         for nm in ("inserted_row_idxs", "inserted_column_idxs", "diff_row_idxs", "diff_column_idxs",
                    "derived_row_idxs", "derived_column_idxs"):
@@ -689,6 +719,11 @@ def _eval_strand(case, cube, dim, op, lo, ctx, kinds, tr):
         return findings, None
     det = "row_order=%r" % (ro,)
     ok = _cmp(findings, "model", "pipeline.strand.row_order", ro, t["row_order"], det)
+    if len(set(ro)) != len(ro):
+        findings.append({"kind": "spec", "locus": "pipeline.strand.row_order.duplicate", "detail": det})
+    if not set(ro) <= set(lo["strip"]["row_order"]):
+        findings.append({"kind": "spec", "locus": "pipeline.strand.row_order.not-in-stripped-order",
+                         "detail": "%s stripped order %r" % (det, lo["strip"]["row_order"])})
     _cmp(findings, "model", "pipeline.strand.shape", common.call_impl(lambda: st_.shape), t["shape"], det)
     for nm in ("inserted_row_idxs", "diff_row_idxs", "derived_row_idxs"):
         _cmp(findings, "model", "pipeline.strand.%s" % nm, common.call_impl(lambda: getattr(st_, nm)), t[nm], det)
